@@ -9,7 +9,6 @@ Open Scope string_scope.
 Definition api (ask : string -> list val -> val) : list api_entry := [
   ("xmr_encode", fun a => match a with [VB b] => rb (xmr_encode b) | _ => bad_call end);
   ("xmr_decode", fun a => match a with [VB s] => rb (xmr_decode s) | _ => bad_call end);
-  ("xmr_decode_current", fun a => match a with [VB s] => rb (xmr_decode_current s) | _ => bad_call end);
   (* IntegerUtils / BytesUtils; booleans are VN 0/1, "None" width is 0 *)
   ("int_to_bytes", fun a => match a with [VZ v; VN w; VN big] =>
       rb (IntBytes.to_bytes v w (negb (N.eqb big 0))) | _ => bad_call end);
